@@ -36,3 +36,36 @@ Theorem C16_splu_map_correct :
   forall b : 'cV[F]_n, Map^T *m (A *m splu_solve A Map b) = Map^T *m b.
 Proof. move=> F n k A Map U b. exact: splu_retained_equations. Qed.
 Print Assumptions C16_splu_map_correct.
+
+(* the pseudo-inverse solver: ANY matrix X that satisfies the four Penrose equations with A (real data, any shape,
+   singular or not) gives, for every right-hand side b, a least-squares solution x = X b of A x = b -- no y has a
+   smaller residual 2-norm -- and among all least-squares solutions (A^T (A y - b) = 0) the one of smallest 2-norm.
+   (The check verifies the four equations numerically for the matrix the 'pinv' solver applies, and compares its
+   answers with an independent minimum-norm least-squares solve.) *)
+Require Import PV.Algebra.KrylovOpt PV.Algebra.PinvLS.
+Theorem C16_pseudo_inverse_minimum_norm_least_squares :
+  forall (F : realFieldType) (m n : nat) (A : 'M[F]_(m, n)) (X : 'M[F]_(n, m)),
+  A *m X *m A = A -> X *m A *m X = X -> (A *m X)^T = A *m X -> (X *m A)^T = X *m A ->
+  forall b : 'cV[F]_m,
+  (forall y, dot (A *m (X *m b) - b) (A *m (X *m b) - b) <= dot (A *m y - b) (A *m y - b)) /\
+  (forall y, A^T *m (A *m y - b) = 0 -> dot (X *m b) (X *m b) <= dot y y).
+Proof.
+move=> F m n A X P1 P2 P3 P4 b; split=> y.
+- exact: (pinv_least_squares P1 P3).
+- exact: (pinv_minimum_norm P1 P2 P3 P4).
+Qed.
+Print Assumptions C16_pseudo_inverse_minimum_norm_least_squares.
+(* non-vacuity: the hypotheses hold for a nonsingular matrix with its inverse and for a singular one (the zero map between
+   spaces of different dimension) with its pseudo-inverse *)
+Example C16_penrose_example :
+  (let A : 'M[rat]_3 := 2%:Q%:M in let X : 'M[rat]_3 := (2%:Q)^-1%:M in
+   A *m X *m A = A /\ X *m A *m X = X /\ (A *m X)^T = A *m X /\ (X *m A)^T = X *m A) /\
+  (let A : 'M[rat]_(2, 3) := 0 in let X : 'M[rat]_(3, 2) := 0 in
+   A *m X *m A = A /\ X *m A *m X = X /\ (A *m X)^T = A *m X /\ (X *m A)^T = X *m A).
+Proof.
+split=> /=.
+- have E : (2%:Q)%:M *m ((2%:Q)^-1)%:M = 1%:M :> 'M[rat]_3 by rewrite -scalar_mxM divff.
+  have E' : ((2%:Q)^-1)%:M *m (2%:Q)%:M = 1%:M :> 'M[rat]_3 by rewrite -scalar_mxM mulVf.
+  by rewrite E E' !mul1mx !trmx1.
+- by rewrite !mulmx0 ?mul0mx !trmx0.
+Qed.
